@@ -47,6 +47,15 @@ var pool = []poolObj{
 	{"negbig70", "bignum", "-" + big70, false, nil},
 	{"negratio", "ratio", "-7/3", false, nil},
 	{"negzero", "float", "-0.0", false, nil},
+	// integers of the small and sized types (what aref of an octets vector or a bit-vector, or
+	// coerce, hands out): they only become fixnums when a function normalizes its numbers
+	{"octet0", "octet", "(coerce 0 'octet)", false, nil},
+	{"octet7", "octet", "(coerce 7 'octet)", false, nil},
+	{"bit0", "bit", "(bit #*0110 0)", false, nil},
+	{"bit1", "bit", "(bit #*0110 1)", false, nil},
+	{"sbyte0", "sizedint", "(coerce 0 'signed-byte)", false, nil},
+	{"ubyte0", "sizedint", "(coerce 0 'unsigned-byte)", false, nil},
+	{"sbyte-neg", "sizedint", "(coerce -3 'signed-byte)", false, nil},
 	{"ratio", "ratio", "1/2", false, nil},
 	{"double", "float", "1.5", false, nil},
 	{"single", "float", "2.5f0", false, nil},
@@ -112,7 +121,8 @@ var smallPool = []string{"nil", "zero", "neg1", "big62", "str", "sym", "keyword"
 
 // numPool: every ordered pair of these for every function that documents a numeric
 // parameter, in both tiers: the places where machine arithmetic has an edge.
-var numPool = []string{"zero", "one", "neg1", "three", "big62", "minfix", "maxfix", "big70", "negbig70", "ratio", "negratio", "double", "negzero", "single", "long", "complex"}
+var numPool = []string{"zero", "one", "neg1", "three", "big62", "minfix", "maxfix", "big70", "negbig70", "ratio", "negratio", "double", "negzero", "single", "long", "complex",
+	"octet0", "octet7", "bit0", "bit1", "sbyte0", "ubyte0", "sbyte-neg"}
 
 // quickPool: the quick tier walks every pair of these for every function.
 var quickPool = []string{"nil", "zero", "three", "neg1", "big62", "big40", "bad-utf8", "deep-list", "double", "str", "sym", "keyword", "char", "list3", "list1", "dotted", "vector", "hash", "lambda", "in-stream"}
